@@ -114,6 +114,11 @@ func init() {
 			{Name: "seeds-d1", Space: spaceSeeded(seedWitnesses, 1), Eval: evalC07(1, small), BudgetS: 10, HeapMB: 512,
 				Bound: "all states within 1 edit operation of the recorded witnesses; <=1 deviation"},
 		}
+		if tier == "thorough" {
+			ps = append(ps, &Pass{Name: "D(6,6..7)-d1", Space: spaceD(6, 6, 7, false), BudgetS: 10, HeapMB: 512,
+				Eval:  evalC07(1, []Cfg{{P1: 0, P2: 0, P4: 1, P5: 2, SZ: 1, NS: 4, LS: 8, TH: -1}, {P1: 0, P2: 0, P4: 3, P5: 2, SZ: 1, NS: 4, LS: 8, TH: -1}}),
+				Bound: "every multiset of 6..7 edges over the 15 pairs of 6 nodes (the space where the simplex pivots) x ns layering x {valign, ns positioner}; <=1 deviation"})
+		}
 		return ps
 	}
 }
